@@ -792,8 +792,8 @@ def run_cases(ctx, cases):
         judge(ctx, c, o, by.get(i), alts.get(i))
 
 
-PER_SOLVER = {"anneal": 260, "tabu": 220, "lns": 260, "alns": 260, "evolve": 220, "de": 160, "pso": 160, "nm": 260,
-              "bayes": 60, "powell": 60, "bfgs": 40, "lbfgs": 40}
+PER_SOLVER = {"anneal": 1000, "tabu": 800, "lns": 1200, "alns": 1000, "evolve": 800, "de": 600, "pso": 600, "nm": 1200,
+              "bayes": 300, "powell": 150, "bfgs": 100, "lbfgs": 100}
 
 
 def run(ctx, budget):
@@ -801,7 +801,7 @@ def run(ctx, budget):
     cases = [c["case"] for c in load_corpus("C19")]
     cases += edge_cases(ctx.rng)
     for s, k in PER_SOLVER.items():
-        mult = budget if s != "bayes" else max(1, budget // 2)
+        mult = budget
         for i in range(k * mult):
             cases.append(gen_case(ctx.rng, s, big=(ctx.tier == "thorough" and i % 4 == 0)))
     run_cases(ctx, cases)
